@@ -734,11 +734,14 @@ class Exec:
         self._only_augassigned = augassigned_only(st.body)
         self._loop_kinds = c.loop_kinds.get(k, {})
         for ex in mutated_exprs(st.body):
-            tgt = self.eval(ex, fr)
+            # arrays reached through attribute chains (cl.tree_.value[i] = ...).  A chain that does not denote an array
+            # in this state belongs to a branch that cannot run here (executing it raises Unsupported in the body).
+            try:
+                tgt = self.eval(ex, fr)
+            except (Unsupported, Raised):
+                tgt = None
             if isinstance(tgt, NdArr):
                 self._havoc_cell(tgt, ast.unparse(ex))
-            else:
-                raise Unsupported("loop writes through %s" % ast.unparse(ex))
         attr_mods = mutated_attrs(st.body)
         self.havoc(fr, mods, heap_mods - {b for b, _ in attr_mods if self._is_obj(b, fr)}, pre)
         for b, attr in sorted(attr_mods):
